@@ -1,7 +1,8 @@
 (* VM simulation, stage F (part 2): the indexed walk over the range array, and the SFor case.
    for_sim: from the loop test (`top`), with the array in slot n0+3, the index in n0+4 and the length in n0+5,
-   the machine follows exec_for.  Induction on the reference fuel; the index stays below 2^32 because every
-   iteration costs fuel and fuel_small bounds the fuel (so the uint32 cast of ARR_GET is the identity). *)
+   the machine follows exec_for.  Induction on the reference fuel; the index is always inside the array (so the
+   bounds check of ARR_GET passes) and stays below 2^63 because every iteration costs fuel and fuel_small bounds
+   the fuel (so the int64 increment of the index does not wrap). *)
 From Coq Require Import ZArith NArith List Bool Lia.
 From NV Require Import Base.Bytes Isa.Codec Isa.CodecProofs gen.IsaTable Lang.Ast Lang.Ref Back.VmCompile Back.VmExec Back.OpTable
   Back.VmSimFetch Back.VmSimStep Back.VmSimComp Back.VmSimWf Back.VmSimEnv Back.VmSimDefs Back.VmSimExpr Back.VmSimStmt
@@ -84,7 +85,7 @@ Definition for_sim (fuel : nat) (x : ident) (body : stmt) : Prop :=
   nth_error locs (length ce + 4) = Some (MInt (Z.of_nat idx)) ->
   nth_error locs (length ce + 5) = Some (MInt (Z.of_nat (Z.to_nat (hi - a)))) ->
   in64 a = true -> in64 hi = true ->
-  (Z.of_nat idx + Z.of_nat fuel < 4294967296)%Z ->
+  (Z.of_nat idx + Z.of_nat fuel < 9223372036854775808)%Z ->
   Reach M (mkst fn ret locs st cs (fe_off fe + top) g out)
     (rpost (stmt_post fn fe ret locs st cs g ce (hide_from (length ce + 6) (hide_from (length (for_ce ce x)) ce1)) L
                       (top + 7 + 5 + 10 + csize cb + 16 + 5))
@@ -118,8 +119,8 @@ Proof.
     pose proof (code_at_app_l _ _ _ _ Hc) as Hcbd. apply code_at_app_r in Hc.
     pose proof (code_at_app_l _ _ _ _ Hc) as Hincr. apply code_at_app_r in Hc. rewrite Si in Hc.
     unfold for_fetch in Hfetch.
-    ldl Hfe Hcode Hfetch Harr. ldl Hfe Hcode Hfetch Hidx. vstep Hfe Hcode Hfetch step_arr_get. vnext Hfetch.
-    rewrite Z.mod_small by lia. rewrite Nat2Z.id. rewrite nth_zrange by lia.
+    ldl Hfe Hcode Hfetch Harr. ldl Hfe Hcode Hfetch Hidx. vstep Hfe Hcode Hfetch step_arr_get; [rewrite map_length, zrange_length; lia|]. vnext Hfetch.
+    rewrite Nat2Z.id. rewrite nth_zrange by lia.
     vstep Hfe Hcode Hfetch step_store_local; [lia|].
     set (i := (a + Z.of_nat idx)%Z) in *.
     set (locs1 := set_nth (length ce + 6) (MInt i) locs).
